@@ -249,6 +249,8 @@ def resolve(step, geo, env, si):
         pos = [base[0] - 1.0, base[1] - 1.0]
         pp = G.pt_value((E(pos[0]), E(pos[1])))
         return dict(op='add_node', name=step['name'], pos=pos), lambda m: dict(op='add_node', name=step['name'], pos=pp(m))
+    if op == 'check_fix':
+        return dict(op='check_fix'), lambda m: dict(op='check_fix')
     if op in ('delete_node', 'delete_well'):
         return dict(op=op, name=step['name']), lambda m: dict(op=op, name=step['name'])
     if op == 'add_well':
@@ -531,6 +533,15 @@ def plan(tier):
         if thorough:
             A3 = alphabet('small', n)[:6] if tag == 'R2x2' else alphabet('tiny', n)[:4]
             batches(fam, [[a, b, d] for a in A3 for b in A3 for d in A3], '%s/len3' % tag, 12)
+    # targeted sequences: a mesh with really missing connections (direct triangulate_column, a re-added
+    # column, a deleted connection), then the repairing operations check(fix=True, silent=True) / reduce
+    breakers = [dict(op='triangulate', col=0), dict(op='readd_column', col=0, name='new'), dict(op='delete_connection', which='first'),
+                dict(op='readd_column', col='last', name='nw2')]
+    fixers = [dict(op='check_fix'), dict(op='reduce', sel='all')]
+    for tag, fam, n in fams:
+        seqs = [[b, f] for b in breakers for f in fixers]
+        if thorough: seqs += [[b, f, dict(op='split', col=1, node=0)] for b in breakers[:2] for f in fixers] + [[dict(op='check_fix')]]
+        batches(fam, seqs, '%s/repair' % tag, 4)
     # meshes with many-sided columns: decompose (concrete coordinates where angles are needed)
     D = [dict(op='decompose', sel='all'), dict(op='decompose', sel='big'), dict(op='triangulate', col=0), dict(op='refine_layers', layers=[], factor=2),
          dict(op='snap', sel=[1]), dict(op='delete_column', col='last'), dict(op='reduce', sel=[0, 1, 2])]
@@ -583,6 +594,7 @@ def run(tier, seed, rep):
         'refine_layers (4 layer subsets x factor 2 (,3 thorough)), snap_columns_to_layers (symbolic threshold), snap_columns_to_nearest_layers, rename_column/layer, delete+add column, add/delete node, delete(+add) connection, add/delete layer, '
         'add/delete well, translate (symbolic shift), rotate 30 and 90 degrees about the symbolic origin, copy_layers_from (1 or 3 symbolic layers), decompose_columns, triangulate_column',
         'length 2: %s; length 3 (thorough only): 6-operation alphabet cubed on RECT(2x2), 4-operation alphabet cubed on RECT(3x2) and MIX, 3 cubed on MIXc and HANG' % ('16-operation alphabet squared on RECT(2x2), 8-operation alphabet squared on RECT(3x2) and MIX, 7 squared on MIXc and HANG' if tier == 'thorough' else '6-operation alphabet squared on RECT(2x2), 4-operation alphabet squared on RECT(3x2) and MIX, 3 squared on MIXc and HANG'),
+        'targeted repair sequences on the three main meshes: {triangulate_column, delete+add column (first / last), delete_connection} followed by {check(fix=True, silent=True), reduce(all)}',
         'for each sequence and each path: the four solver clauses hold for ALL values of the symbols']
     rep.outside += ['sequences longer than %d; operation arguments outside the alphabet; meshes other than the five listed' % (3 if tier == 'thorough' else 2),
                     'random sequences up to length 25 on geometries up to 300 columns, the shipped geometries, the file round trip after the edits (C03 covers the round trip)',
